@@ -1031,3 +1031,87 @@ def n18_continue(text):
         if done:
             break
     return text, recs
+
+
+def _receiver_start(ft, dot):
+    """start token index of the postfix-expression receiver that ends right before the '.' at token index `dot`"""
+    toks = ft.toks
+    j = dot - 1
+    depth = 0
+    start = 0
+    while j >= 0:
+        w = toks[j]
+        if w.kind == 'punct':
+            if w.text in CLOSE:
+                depth += 1
+            elif w.text in OPEN:
+                if depth == 0:
+                    start = j + 1
+                    break
+                depth -= 1
+            elif depth == 0 and w.text in ('=', ';', ',', '=>', '==', '&&', '||'):
+                start = j + 1
+                break
+        elif w.kind == 'ident' and depth == 0 and w.text in ('return', 'in', 'else'):
+            start = j + 1
+            break
+        j -= 1
+    while toks[start].kind in ('ws', 'lcomment', 'bcomment', 'doc'):
+        start += 1
+    return start
+
+
+def n4d_then_filter(text):
+    """N4d: `C.then(|| B)` -> `(if C { Some(B) } else { None })` (bool::then);
+    N4e: `X.filter(|p| P)` -> `(match X { Some(v__) => if { let p = &v__; P } { Some(v__) } else { None }, None => None })`
+    (Option::filter; `|_| P` needs no binding). Definitional unfoldings, applied where the closure literal captures
+    `&mut`/`self` state that Verus closures cannot (zero-argument `then`, one-argument `filter` closure literals only)."""
+    recs = []
+    while True:
+        ft = FnText(text)
+        toks = ft.toks
+        hit = None
+        for k in ft.c:
+            t = toks[k]
+            if t.kind != 'ident' or t.text not in ('then', 'filter') or toks[ft.prevc(k)].text != '.':
+                continue
+            po = ft.nextc(k)
+            if toks[po].text != '(':
+                continue
+            close = match_close(toks, po)
+            b = ft.nextc(po)
+            if t.text == 'then':
+                if toks[b].text != '||':
+                    continue
+                body0 = ft.nextc(b)
+                hit = ('then', _receiver_start(ft, ft.prevc(k)), ft.prevc(k), None, body0, close)
+                break
+            else:
+                if toks[b].text != '|':
+                    continue
+                v = ft.nextc(b)
+                if toks[v].kind != 'ident' or toks[ft.nextc(v)].text != '|':
+                    continue
+                # type-unaware rewriting: only where the receiver is known to be an Option, i.e. the result of an N4d unfolding
+                body0 = ft.nextc(ft.nextc(v))
+                rs = _receiver_start(ft, ft.prevc(k))
+                if not text[toks[rs].start:].startswith('(if '):
+                    continue
+                hit = ('filter', rs, ft.prevc(k), toks[v].text, body0, close)
+                break
+        if hit is None:
+            break
+        kind, start, dot, name, body0, close = hit
+        if kind == 'then':
+            edits = [(toks[start].start, toks[start].start, '(if '),
+                     (toks[dot].start, toks[body0].start, ' { Some('),
+                     (toks[close].start, toks[close].end, ') } else { None })')]
+            recs.append(dict(rule='N4d', before='C.then(|| B)', after='(if C { Some(B) } else { None })'))
+        else:
+            bind = '' if name == '_' else 'let %s = &v__; ' % name
+            edits = [(toks[start].start, toks[start].start, '(match '),
+                     (toks[dot].start, toks[body0].start, ' { Some(v__) => if { %s' % bind),
+                     (toks[close].start, toks[close].end, ' } { Some(v__) } else { None }, None => None })')]
+            recs.append(dict(rule='N4e', before='X.filter(|%s| P)' % name, after='(match X { Some(v__) => if P { Some(v__) } else { None }, None => None })'))
+        text = apply_edits(text, edits)
+    return text, recs
